@@ -12,17 +12,29 @@ LEAN_MODULE = "NanoVerif.Props.C18"
 OBLIGATIONS = [
     "NanoVerif.C18.axis_hull",
     "NanoVerif.C18.clip_convex",
+    "NanoVerif.C18.masters_reproduced_of_triangular",
+    "NanoVerif.C18.masters_reproduced_rounded",
+    "NanoVerif.C18.one_axis_masters_reproduced",
+    "NanoVerif.C18.default_location_reproduces_default",
+    "NanoVerif.C18.designspace_normalises",
+    "NanoVerif.Var.support1_excludes",
+    "NanoVerif.Var.supportsGo_single",
 ]
 DESIGN_REF = "DESIGN.md §5 C18"
-LEVEL_TEXT = ("Weak partial proof + exploration. Proved in Lean (what is nanoemoji's own logic): each axis range is the hull of the masters' positions, "
-              "attained at masters, so every master (and the default master) lies inside it; if a clip box contains the geometry at two adjacent "
-              "masters and both interpolate linearly, the interpolated box contains the interpolated points everywhere in between. NOT proved: "
-              "ufo2ft/fontTools varLib merging (third party). Explored on the REAL CLI: generated 1-2 axis configurations with 2-3 structurally "
-              "compatible masters (same shapes, different coordinates, axes declared in non-alphabetical order, several defaults); the variable font is "
-              "instantiated with fontTools at every master location and compared with a static build of that master alone (layer count, colours, "
-              "outline bounds, advance, clip box), and at intermediate locations every outline point must lie inside the clip box in force.")
-LEVEL_NOTE = "varLib / ufo2ft variable COLR merging is observed only. Trusted: Lean kernel, fontTools instancer, harness."
-TECHNIQUE = "Lean 4 proof of the designspace-hull and convexity lemmas + differential check of instantiated variable fonts against static master builds"
+LEVEL_TEXT = ("Partial proof + exploration. Proved in Lean: (1) what is nanoemoji's own logic — each axis range is the hull of the masters' positions, attained at "
+              "masters, and that triple normalises the default to 0 and the ends to -1 / +1; (2) on a transcription of fontTools' varLib.models (normalizeValue, "
+              "supportScalar, VariationModel supports / deltas / interpolation; Model/VarModel.lean): forward substitution over a unit lower-triangular scalar table "
+              "gives every master back at its own location for any number of masters and axes (and within the rounding of ONE delta when deltas are rounded to "
+              "integers); for one axis the whole chain is closed — the support construction pushes every earlier master onto or outside the boundary of every later "
+              "support (induction over the masters), so `valueAt` at master i's position is master i's value and the origin gives the default master, for any number "
+              "of masters at distinct positions; (3) clip-box convexity between adjacent masters. NOT proved: triangularity of the supports for several axes (tied "
+              "and observed only), ufo2ft's merging of UFOs into gvar/HVAR/COLR variation data. Tie: the model against the real VariationModel run on Fractions "
+              "(master order, supports, deltas, values), against the regions stored in every variable font built (COLR VarStore, gvar), and its prediction of the "
+              "clip boxes at an intermediate location from the static builds of the masters. Explored on the REAL CLI: generated 1-2 axis configurations with 2-3 "
+              "structurally compatible masters; the variable font is instantiated at every master location and compared with a static build of that master alone "
+              "(layer count, colours, outline bounds, advance, clip box), and at intermediate locations every outline point must lie inside the clip box in force.")
+LEVEL_NOTE = "ufo2ft variable COLR merging is observed only; varLib.models is a tied transcription. Trusted: Lean kernel, fontTools instancer, harness."
+TECHNIQUE = "Lean 4 proof (designspace hull, variation-model reproduction of masters, convexity) + model/VariationModel/font correspondence + differential check of instantiated variable fonts against static master builds"
 ASSUMPTIONS = ["masters are structurally compatible (same shape structure); incompatible masters are ufo2ft's error"]
 
 
@@ -215,6 +227,146 @@ def compare(ctx, res, r):
                     break
 
 
+def suite_var_model(ctx, res, n):
+    """Tie for Model/VarModel.lean: the real fontTools `VariationModel` (what ufo2ft's compileVariableTTF builds from nanoemoji's designspace), run
+    on Fractions, against the model on the same masters — order of the masters, supports, deltas, values at the masters' own locations and at
+    other locations; 1-3 axes, 2-6 masters, masters given in a shuffled order.  `normalizeValue` against the model's on the axis triples
+    write_variable_font declares."""
+    from fractions import Fraction as F
+    from fontTools.varLib.models import VariationModel, normalizeValue
+    from harness.common import fr
+
+    rng = ctx.rng
+    ops, reals = [], []
+    grid = [F(i, 8) for i in range(-8, 9) if i != 0]
+    for _ in range(n):
+        k = rng.choice([1, 1, 2, 3])
+        nm = rng.randint(1, 5)
+        locs = set()
+        while len(locs) < nm:
+            loc = tuple(rng.choice(grid + [F(0)] * (len(grid) if k > 1 else 0)) for _ in range(k))
+            if any(loc):
+                locs.add(loc)
+        locs = [tuple([F(0)] * k)] + sorted(locs)
+        rng.shuffle(locs)
+        axes = [f"a{i}" for i in range(k)]
+        try:
+            vm = VariationModel([dict(zip(axes, l)) for l in locs], axisOrder=axes)
+        except AssertionError:
+            continue     # fontTools' own assertion on duplicate on-axis points (cannot happen: locations are distinct)
+        ordered = [[l.get(a, F(0)) for a in axes] for l in vm.locations]
+        masters = [[F(rng.randint(-400, 1200)) for _ in locs] for _ in range(2)]
+        evals = [[F(rng.randint(-8, 8), 8) for _ in axes] for _ in range(4)]
+        real = {"sup": [[[F(x) for x in s.get(a, (0, 0, 0))] for a in axes] for s in vm.supports],
+                "deltas": [vm.getDeltas(m) for m in masters],
+                "mo": [[m[vm.reverseMapping[i]] for i in range(len(locs))] for m in masters]}
+        real["values"] = [[vm.interpolateFromDeltas(dict(zip(axes, e)), d) for e in evals] for d in real["deltas"]]
+        ops.append({"op": "var-model", "user": [[fr(v) for v in l] for l in locs], "locs": [[fr(v) for v in l] for l in ordered],
+                    "masters": [[fr(v) for v in m] for m in real["mo"]], "evals": [[fr(v) for v in e] for e in evals]})
+        reals.append(real)
+    close = lambda a, b: abs(float(a) - float(b or 0)) <= 1e-9 * max(1.0, abs(float(b or 0)))
+    for op, real, m in zip(ops, reals, ctx.driver.run(ops)):
+        meta = {"locs": op["user"], "axes": len(op["user"][0])}
+        res.count(key=("var-model", stable_hash(op)), nontrivial=len(op["locs"]) > 2)
+        res.stat(f"var-model:{meta['axes']}axes:{len(op['locs'])}masters")
+        if "supports" not in m:
+            res.add_tie_break("fontTools VariationModel vs Model/VarModel (driver error)", meta, m, None)
+            continue
+        if m["sorted"] != op["locs"]:
+            res.add_tie_break("VariationModel.locations (master order) vs Model sortLocs", meta, m["sorted"], op["locs"])
+            continue
+        ms = [[[F(x) for x in r] for r in s] for s in m["supports"]]
+        bad = [(a, b) for sa, sb in zip(ms, real["sup"]) for a, b in zip(sa, sb) if (b[1] == 0 and a[1] != 0) or (b[1] != 0 and a != b)]
+        if bad:
+            res.add_tie_break("VariationModel.supports vs Model supports", meta, [[str(x) for x in r] for r in bad[0][0:1][0]], [str(x) for x in bad[0][1]])
+            continue
+        if not all(close(F(a), b) for x, y in zip(m["deltas"], real["deltas"]) for a, b in zip(x, y)):
+            res.add_tie_break("VariationModel.getDeltas vs Model getDeltas", meta, m["deltas"], [[str(v) for v in d] for d in real["deltas"]])
+        elif not all(close(F(a), b) for x, y in zip(m["values"], real["values"]) for a, b in zip(x, y)):
+            res.add_tie_break("VariationModel.interpolateFromDeltas vs Model valueAt", meta, m["values"], [[str(v) for v in d] for d in real["values"]])
+        elif [[F(x) for x in d] for d in m["at_masters"]] != real["mo"]:
+            # the model itself fails `one_axis_masters_reproduced` / `masters_reproduced_of_triangular` on this input: cannot happen while the proofs hold
+            res.add_tie_break("Model valueAt at the masters' own locations vs the masters", meta, m["at_masters"], [[str(v) for v in d] for d in real["mo"]])
+        if m.get("one_axis") is not None and [[F(x) for x in r] for r in m["one_axis"]][1:] != [s[0] for s in ms][1:]:
+            res.add_tie_break("Model supports (dense) vs Model support1 (one axis)", meta, m["one_axis"], m["supports"])
+    # normalizeValue on designspace triples
+    nops, nreal = [], []
+    for _ in range(n):
+        pos = sorted(rng.sample([100, 200, 250.5, 312.5, 400, 412.5, 650.5, 700, 900], rng.randint(2, 4)))
+        d = rng.choice(pos)
+        v = rng.choice(pos + [rng.uniform(50, 1000), (pos[0] + pos[-1]) / 2])
+        nops.append({"op": "normalize-value", "v": fr(F(v)), "triple": [fr(F(pos[0])), fr(F(d)), fr(F(pos[-1]))]})
+        nreal.append(normalizeValue(F(v), (F(pos[0]), F(d), F(pos[-1]))))
+    for op, real, m in zip(nops, nreal, ctx.driver.run(nops)):
+        res.count(key=("normalize", stable_hash(op)), nontrivial=True)
+        if "r" not in m or F(m["r"]) != F(real):
+            res.add_tie_break("fontTools normalizeValue vs Model normalizeValue", op, m, str(real))
+
+
+def model_vs_font(ctx, res, r):
+    """The model against the variable font that was really built: the regions the font stores (COLR VarStore, gvar) are among the model's supports
+    for the declared masters, and the clip boxes the font gives at the intermediate location are what the model predicts from the static builds of
+    the masters (deltas are rounded to integers in the font: within 1.5 units)."""
+    from fractions import Fraction as F
+    from fontTools import ttLib
+    from harness.common import fr
+
+    vf = ttLib.TTFont(io.BytesIO(r["vf"]), lazy=False)
+    axes = [(a.axisTag, F(a.minValue), F(a.defaultValue), F(a.maxValue)) for a in vf["fvar"].axes]
+    def norm_ops(loc):
+        return [{"op": "normalize-value", "v": fr(F(loc.get(t, float(d)))), "triple": [fr(lo), fr(d), fr(hi)]} for t, lo, d, hi in axes]
+    user_locs = [ms["loc"] for ms in r["masters"]]
+    flat = [o for loc in user_locs + [r["mid"]["loc"]] for o in norm_ops(loc)]
+    outs = ctx.driver.run(flat)
+    if any("r" not in o for o in outs):
+        res.add_tie_break("Model normalizeValue on the font's own fvar triples", {"seed": r["seed"]}, outs, None)
+        return
+    k = len(axes)
+    nl = [[outs[i * k + j]["r"] for j in range(k)] for i in range(len(user_locs) + 1)]
+    nmasters, nmid = nl[:-1], nl[-1]
+    m0 = ctx.driver.run([{"op": "var-model", "user": nmasters, "locs": nmasters, "masters": [], "evals": []}])[0]
+    order = m0["sorted"]
+    perm = [nmasters.index(l) for l in order]
+    # clip boxes of every glyph in every static master build, in the model's master order
+    statics = [summarize(r["masters"][i]["static"]) for i in perm]
+    cps = sorted(statics[0])
+    quantities = [[F(st[cp]["clip"][c]) for st in statics] for cp in cps for c in range(4) if all(st[cp]["clip"] is not None for st in statics)]
+    m = ctx.driver.run([{"op": "var-model", "locs": order, "masters": [[fr(v) for v in q] for q in quantities], "evals": [nmid]}])[0]
+    model_regions = {tuple(tuple(F(x) for x in reg) if F(reg[1]) != 0 else (F(0), F(0), F(0)) for reg in s) for s in m["supports"]}
+    def q14(x):
+        return F(round(x * 16384), 16384)
+    model_regions14 = {tuple(tuple(q14(x) for x in reg) for reg in s) for s in model_regions}
+    real_regions = set()
+    vs = vf["COLR"].table.VarStore
+    if vs is not None:
+        for reg in vs.VarRegionList.Region:
+            real_regions.add(tuple((q14(F(a.StartCoord)), q14(F(a.PeakCoord)), q14(F(a.EndCoord))) if a.PeakCoord != 0 else (F(0), F(0), F(0)) for a in reg.VarRegionAxis))
+    if "gvar" in vf:
+        tags = [a[0] for a in axes]
+        for g, tvs in vf["gvar"].variations.items():
+            for tv in tvs:
+                real_regions.add(tuple(tuple(q14(F(x)) for x in tv.axes[t]) if t in tv.axes and tv.axes[t][1] != 0 else (F(0), F(0), F(0)) for t in tags))
+    res.count(key=("vf-model", r["seed"]), nontrivial=len(real_regions) > 0)
+    res.stat(f"vf-model:regions={len(real_regions)}")
+    extra = real_regions - model_regions14
+    if extra or not real_regions:
+        res.add_tie_break("regions stored in the variable font (COLR VarStore, gvar) vs Model supports of the declared masters", {"seed": r["seed"], "masters": nmasters},
+                          sorted([[str(x) for x in reg] for reg in s] for s in model_regions14), sorted([[str(x) for x in reg] for reg in s] for s in real_regions))
+        return
+    # predicted clip boxes at the intermediate location
+    it = iter(m["values"])
+    for cp in cps:
+        if not all(st[cp]["clip"] is not None for st in statics):
+            continue
+        pred = [float(F(next(it)[0])) for _ in range(4)]
+        real = clip_at(r["vf"], cp, r["mid"]["loc"])
+        if real is None:
+            continue
+        if any(abs(a - b) > 1.5 for a, b in zip(pred, real)):
+            res.add_tie_break("clip box of the variable font at an intermediate location vs Model valueAt over the masters' static clip boxes",
+                              {"seed": r["seed"], "cp": cp, "loc": r["mid"]["loc"]}, pred, list(real))
+
+
 def suite(ctx, res, n):
     jobs = [(ctx.rng.getrandbits(32) * 2 + (i % 2), i % 4 in (0, 3), i) for i in range(n)]   # odd seeds: non-integer master positions
     with ThreadPoolExecutor(max_workers=6) as ex:
@@ -226,13 +378,16 @@ def suite(ctx, res, n):
             continue
         res.stat("vf:" + ("2axes" if r.get("two_axes") else "1axis"))
         compare(ctx, res, r)
+        model_vs_font(ctx, res, r)
     res.sample({"suite": "vf", "seeds": [j[0] for j in jobs]})
 
 
 def run(ctx, res):
     nano.init()
-    res.rule = ("CLI builds of 2-glyph, 2-shape sources in 2-3 masters (translated/scaled coordinates), 1 axis (wght) or 2 axes declared wght,wdth with "
+    res.rule = ("fontTools VariationModel vs Model/VarModel on 1-3 axes, 2-6 masters on the 1/8 grid of [-1,1] in shuffled order; normalizeValue on designspace triples; "
+                "CLI builds of 2-glyph, 2-shape sources in 2-3 masters (translated/scaled coordinates), 1 axis (wght) or 2 axes declared wght,wdth with "
                 "masters differing on one axis each; instantiated at each master and at the midpoint of the first two; every build non-trivial")
+    suite_var_model(ctx, res, ctx.budget(60, 1500))
     suite(ctx, res, ctx.budget(4, 40))
 
 
